@@ -28,6 +28,7 @@ Fixpoint gval_eqb (a b : gval) {struct a} : bool :=
   | GMap s n i, GMap s' n' i' => Bool.eqb s s' && Bool.eqb n n' && Nat.eqb i i'
   | GPtr n i, GPtr n' i' | GFunc n i, GFunc n' i' | GChan n i, GChan n' i' => Bool.eqb n n' && Nat.eqb i i'
   | GStruct i l, GStruct i' l' => Nat.eqb i i' && go l l'
+  | GPtrTo n t u, GPtrTo n' t' u' => Bool.eqb n n' && Nat.eqb t t' && gval_eqb u u'
   | _, _ => false
   end.
 Fixpoint gvals_eqb (l l' : list gval) : bool :=
